@@ -188,6 +188,7 @@ structure Pkt where
   fti : Option Fti
   pid : Option (Nat × Nat)     -- `get_fec_inline_payload_id`: (sbn, esi); none = `Err`
   plen : Nat                   -- payload length
+  dlen : Nat                   -- length of the whole datagram (`pkt.data.len()`)
   deriving DecidableEq, Repr, Inhabited
 
 /-- field ranges guaranteed by `parse_alc_pkt` / `parse_ext_fdt` / `parse_sct` -/
@@ -682,17 +683,28 @@ def updateExpiredAll (now : Int) : List (Nat × FdtRecv σ) → Rs (List (Nat ×
       | .error w => .error w
       | .ok r' => .ok ((k, f') :: r')
 
-/-- `cleanup_fdt` -/
-def cleanupFdt (s : State σ) (now : Int) : Rs (State σ) :=
+/-- which wall-clock time-outs have elapsed at a `cleanup` call: `obj toi` = "the last activity of
+    the object `toi` is older than `object_timeout`", `fdt id` = the same for the object inside the
+    unfinished FDT instance `id` -/
+structure Stale where
+  obj : Nat → Bool
+  fdt : Nat → Bool
+
+/-- `cleanup_fdt`: expiry is re-evaluated; `Error`/`Expired` instances are dropped; a `Receiving`
+    instance is dropped when an object time-out is configured and its last packet is older than it
+    (`last_activity_duration_since` is `Some` only while the inner object exists) -/
+def cleanupFdt (s : State σ) (now : Int) (staleFdt : Nat → Bool) : Rs (State σ) :=
   match updateExpiredAll now s.fdtReceivers with
   | .error w => .error w
   | .ok l =>
-    .ok { s with fdtReceivers := l.filter (fun kf => kf.2.st = .complete ∨ kf.2.st = .receiving) }
+    .ok { s with fdtReceivers := l.filter (fun kf =>
+      kf.2.st = .complete ∨
+      (kf.2.st = .receiving ∧ ¬ (s.cfg.objectTimeout = true ∧ kf.2.obj.isSome = true ∧ staleFdt kf.1 = true))) }
 
 /-- `Receiver::cleanup` -/
-def cleanup (I : ObjIface σ) (s : State σ) (now : Int) (stale : Nat → Bool) : Rs (State σ × List Ev) :=
-  let (s1, e1) := cleanupObjects I s stale
-  match cleanupFdt s1 now with
+def cleanup (I : ObjIface σ) (s : State σ) (now : Int) (stale : Stale) : Rs (State σ × List Ev) :=
+  let (s1, e1) := cleanupObjects I s stale.obj
+  match cleanupFdt s1 now stale.fdt with
   | .error w => .error w
   | .ok s2 => .ok (s2, e1)
 
@@ -704,7 +716,7 @@ def isExpired (s : State σ) (elapsed : Bool) : Bool :=
 
 inductive Op where
   | data (d : Parsed) (now : Int) (ans : FdtAns)
-  | cleanup (now : Int) (stale : Nat → Bool)
+  | cleanup (now : Int) (stale : Stale)
 
 /-- one call; a panic leaves the receiver as it was (the harness never continues after one) -/
 def step (I : ObjIface σ) (s : State σ) : Op → Rs (State σ × Res × List Ev)
